@@ -507,6 +507,24 @@ func TestVerif_C20_Independence(t *testing.T) {
 		}
 		sort.Ints(vals)
 		rec.Case("blackbox-coeff-spread", true, verifx.Digest("bb", sb), func() any { return map[string]any{"secret_byte": sb, "splits": 6000, "distinct_coefficients": len(vals)} })
+		// every field element, zero included, must be possible: a coefficient drawn from a subset (e.g. "re-draw until
+		// non-zero", which looks like a way to guarantee the degree) lets t-1 shares exclude candidate secrets.
+		// P(some value missing from 6000 uniform draws) < 256*exp(-23) ~ 2e-8 per run.
+		if len(vals) < 256 {
+			missing := []int{}
+			have := map[int]bool{}
+			for _, v := range vals {
+				have[v] = true
+			}
+			for v := 0; v < 256 && len(missing) < 5; v++ {
+				if !have[v] {
+					missing = append(missing, v)
+				}
+			}
+			if !have[0] {
+				rec.Violation(t, "coefficient-never-zero", map[string]any{"secret": sb, "distinct": len(vals)}, "6000 splits of byte %d never used the degree-1 coefficient 0 (missing values %v): fewer than t shares rule out candidate secrets", sb, missing)
+			}
+		}
 		if len(vals) < 250 {
 			rec.Violation(t, "coefficients-not-uniform", map[string]any{"secret": sb, "distinct": len(vals)}, "6000 splits of byte %d used only %d distinct degree-1 coefficients", sb, len(vals))
 		}
